@@ -213,9 +213,58 @@ Proof.
   all: try (unfold outcome_ok; match goal with H : _ = first_fail src0 |- _ => rewrite <- H end;
             subst; rewrite ?Heqb; auto; fail).
   all: try (destruct Xout as [ie [E1 [E2 [E3 E4]]]]; unfold outcome_ok; rewrite E1, E2; subst; auto; fail).
-  Show Existentials.
-  all: admit.
-Admitted.
+Qed.
+
+Lemma xinv_reach K s : reach B K cb (init src0) s -> XInv K s.
+Proof.
+  induction 1 as [|s t s' Hr IH Hs].
+  - apply xinv_init.
+  - pose proof (sinv_reach B K cb Bpos src0 s Hr) as HS.
+    destruct t; simpl in Hs; eauto using xinv_cstep, xinv_wstep.
+Qed.
+
+(* a consumer that reached the end without closing early received everything
+   before the first failure, and the worker recorded exactly that failure *)
+Theorem st_nonclosing_outcome K s :
+  reach B K cb (init src0) s -> cp s = CEnd -> closing s = false ->
+  delivered s = oks_before src0 /\ outcome_ok (exc s) (died s).
+Proof.
+  intros Hr Hc Hcl. apply xinv_reach in Hr.
+  destruct Hr as [_ Xc _ _ _ _ Xout]. rewrite Hc in Xc.
+  destruct (Xc Hcl) as [Hw [_ Hd]]. split; auto.
+  specialize (Xout Hcl). rewrite Hw in Xout. exact Xout.
+Qed.
+
+(* 1. exhausting consumer *)
+Theorem st_exhaust_outcome s :
+  reach B None cb (init src0) s -> cp s = CEnd ->
+  delivered s = oks_before src0 /\ closing s = false /\
+  match first_fail src0 with
+  | None => exc s = None /\ died s = None
+  | Some (ie, t) => if ie || cb then exc s = Some t /\ died s = None
+                    else exc s = None /\ died s = Some t
+  end.
+Proof.
+  intros Hr Hc.
+  assert (Hcl : closing s = false).
+  { pose proof (X_cl _ _ (xinv_reach _ _ Hr)) as H.
+    destruct (closing s); auto. specialize (H eq_refl). discriminate. }
+  destruct (st_nonclosing_outcome None s Hr Hc Hcl) as [Hd Ho].
+  repeat split; auto.
+Qed.
+
+(* 4. early close after S k examples *)
+Theorem st_close_outcome k s :
+  reach B (Some (S k)) cb (init src0) s -> cp s = CEnd ->
+  (closing s = true /\ length (delivered s) = S k) \/
+  (closing s = false /\ delivered s = oks_before src0).
+Proof.
+  intros Hr Hc. destruct (closing s) eqn:Hcl.
+  - left. split; auto.
+    pose proof (X_cl _ _ (xinv_reach _ _ Hr) Hcl) as H. inversion H; auto.
+  - right. split; auto. apply (st_nonclosing_outcome _ s Hr Hc Hcl).
+Qed.
+
 
 End Outcome.
 
@@ -242,8 +291,11 @@ Proof.
   split; [apply run_reach|]. vm_compute. repeat split; reflexivity.
 Qed.
 
+Print Assumptions st_exhaust_outcome.
+Print Assumptions st_nonclosing_outcome.
 Print Assumptions st_terminal_joined.
 Print Assumptions st_no_step_after_end.
 Print Assumptions st_pulls_after_shutdown.
+Print Assumptions st_close_outcome.
 Print Assumptions st_base_exception_swallowed.
 Print Assumptions st_base_exception_reported.
